@@ -708,7 +708,12 @@ loop:
 			break
 		}
 		if len(enabled) == 0 && len(idlers) > 0 {
-			enabled = idlers[:1]
+			// several idle-priority threads: which one goes first is a free choice
+			k := 0
+			if len(idlers) > 1 {
+				k = s.ch.Choose("idle-order", len(idlers), 0)
+			}
+			enabled = idlers[k : k+1]
 		}
 		if len(enabled) == 0 {
 			if horizonHit {
